@@ -64,7 +64,7 @@ def reachable (set : List Nat) : Bool :=
     p.length == k && set.length == k && p.all set.contains
 
 /-- `set`: the stores whose commit is durable (0 block, 1 event, 2 state), any subset -/
-def caseOut (ids : List Nat) (h : Nat) (set : List Nat) (t : Option Nat) : String :=
+def caseOut (ids : List Nat) (h : Nat) (set : List Nat) (t : Option Nat) (cycles : List (Nat × Option Nat) := []) : String :=
   let L0 := genesisLedger commitOrder
   let chain := build commitOrder ids L0
   if chain.length ≠ ids.length then "uncrashed-failed" else
@@ -76,9 +76,12 @@ def caseOut (ids : List Nat) (h : Nat) (set : List Nat) (t : Option Nat) : Strin
       let app := F.data.length
       let t := match t with | none => app | some v => min v app
       if set.contains 2 ∧ t < app then "unreachable" else
+      if cycles.any (fun c => (recoverCommits.take c.1).contains 2 && (match c.2 with | none => false | some v => v < app)) then "unreachable" else
       match crashDisk sem set L b set.length t with
       | none => "uncrashed-failed"
-      | some d =>
+      | some d0 =>
+        -- crashes during recovery: each cycle dies after c.1 commits of the replay iteration and c.2 bytes of its re-append
+        let d := cycles.foldl (fun d c => reopenCrash sem loopLo loopHi blockArg recoverCommits d c.1 (c.2.getD 1000000000)) d0
         if !reachable set then
           (match reopen sem loopLo loopHi blockArg recoverCommits d with
            | .error e => "reach=0 open=err:" ++ errClass e
@@ -149,24 +152,61 @@ def search : String :=
     s!"witness CR:{h}:{setName (commitOrder.take k)}:{ts} e;e;e;e;e => {caseOut ids h (commitOrder.take k) t}"
   | none => "none"
 
+def storeNo : String → Option Nat
+  | "b" => some 0
+  | "e" => some 1
+  | "s" => some 2
+  | _ => none
+
+def parseT (ts : String) : Option (Option Nat) :=
+  if ts == "all" then some none
+  else if ts.toList.all Char.isDigit && !ts.isEmpty then ts.toNat?.map some
+  else none
+
+def parseCycles : List String → Option (List (Nat × Option Nat))
+  | [] => some []
+  | ks :: ts :: r =>
+    if ks.toList.all Char.isDigit && !ks.isEmpty then
+      match ks.toNat?, parseT ts, parseCycles r with
+      | some k, some t, some cs => some ((k, t) :: cs)
+      | _, _, _ => none
+    else none
+  | _ => none
+
+/-- number of commits of `order` that precede the commit of store `x` -/
+def before (order : List Nat) (x : Nat) : Nat := (order.takeWhile (· != x)).length
+
+def hOk (hs : String) (n : Nat) : Option Nat :=
+  match hs.toNat? with
+  | some h => if hs.toList.all Char.isDigit && 1 ≤ h && h + 2 ≤ n then some h else none
+  | none => none
+
 def handle (line : String) : String :=
   match fields line with
   | ["SEARCH"] => search
   | ["NOP"] => "skip"
   | [hd, spec] =>
-    match hd.splitOn ":" with
-    | ["CR", hs, ks, ts] =>
-      let ops := spec.splitOn ";"
-      match hs.toNat?, parseSet ks with
-      | some h, some set =>
-        if !(hs.toList.all Char.isDigit) || h < 1 || h + 2 > ops.length then "skip"
-        else if !(ops.all opOk) then "skip"
-        else if ts == "all" then caseOut (idsOf ops) h set none
-        else if ts.toList.all Char.isDigit && !ts.isEmpty then
-          (match ts.toNat? with | some t => caseOut (idsOf ops) h set (some t) | none => "skip")
-        else "skip"
-      | _, _ => "skip"
-    | _ => "bad-op"
+    let ops := spec.splitOn ";"
+    let parts := hd.splitOn ":"
+    -- `CR@<n>` = same case with stateHashCheckHeight n on the implementation side (explored, not modelled)
+    let tag := (parts.headD "").splitOn "@" |>.headD ""
+    match tag, parts.drop 1 with
+    | "CR", hs :: ks :: ts :: rest =>
+      (match hOk hs ops.length, parseSet ks, parseT ts, parseCycles rest with
+       | some h, some set, some t, some cycles => if ops.all opOk then caseOut (idsOf ops) h set t cycles else "skip"
+       | _, _, _, _ => "skip")
+    | "RC", [hs, xs] =>
+      -- real crash in the commit: the commit of store `x` fails and the process dies; what precedes it is durable
+      (match hOk hs ops.length, storeNo xs with
+       | some h, some x => if ops.all opOk then caseOut (idsOf ops) h (commitOrder.take (before commitOrder x)) none else "skip"
+       | _, _ => "skip")
+    | "RR", [hs, ks, ts, xs] =>
+      -- real crash in the recovery of a composed first-level state: the recovery commit of store `x` fails
+      (match hOk hs ops.length, parseSet ks, parseT ts, storeNo xs with
+       | some h, some set, some t, some x =>
+         if ops.all opOk then caseOut (idsOf ops) h set t [(before recoverCommits x, none)] else "skip"
+       | _, _, _, _ => "skip")
+    | _, _ => "bad-op"
   | _ => "bad-op"
 
 end OntVerif.Driver.C01
